@@ -77,7 +77,7 @@ def shards(tier):
 
 def required_counters(tier):
     return {'judged:count': 150, 'judged:class': 400, 'judged:frame': 400, 'judged:position': 400, 'judged:size': 300,
-            'judged:angle': 60, 'judged:include': 400, 'judged:flag': 300, 'judged:text': 60, 'judged:tag': 60, 'judged:fill': 100,
+            'judged:angle': 60, 'judged:include': 400, 'judged:flag': 300, 'judged:text': 60, 'judged:tag': 60, 'judged:fill': 100, 'judged:font': 200,
             'judged:frameless-no-region': 15, 'judged:skip-warns': 30, 'judged:neighbours-unaffected': 30,
             'judged:multi-annulus': 30, 'seen:colon-hours': 20, 'seen:colon-degrees-lon': 10, 'seen:excluded': 50,
             'seen:composite-member': 20, 'judged:skip-no-region': 30,
@@ -301,7 +301,7 @@ def noise_props(rng, shape):
         out.append(('dashlist', rng.choice(['8 3', '4 4', '2 6'])))
     if rng.random() < 0.3:
         out.append(('font', '"' + rng.choice(['helvetica 10 normal roman', 'times 12 bold roman', 'courier 14 normal italic',
-                                             'helvetica 10 bold', 'times 9']) + '"'))
+                                             'helvetica 10 bold', 'times 9', 'courier 12 bold', 'times 11 normal']) + '"'))
     if rng.random() < 0.2 and shape in ('circle', 'ellipse', 'box', 'polygon'):
         out.append(('fill', rng.choice(['0', '1', '1'])))
     if shape == 'point' and rng.random() < 0.7:
@@ -904,8 +904,9 @@ def model(items):
                                 flags[f] = level[f]
                                 break
                     fill = next((level['fill'] for level in (own, comp, glob) if 'fill' in level), None)
+                    font = next((level['font'] for level in (own, comp, glob) if 'font' in level), None)
                     for r in regs:
-                        r.update(frame=frame, include=inc, flags=flags, tags=tags, item=idx, shape=it['shape'], fill=fill,
+                        r.update(frame=frame, include=inc, flags=flags, tags=tags, item=idx, shape=it['shape'], fill=fill, font=font,
                                  text=prop_text_value(own['text']) if 'text' in own else None,
                                  inc_src=('prop' if 'include' in own else 'sign' if it['sign'] else
                                           'global' if 'include' in glob else 'default'),
@@ -1190,6 +1191,16 @@ def compare_region(obs, e, reg, case):
         gotf = bool(dict(reg.visual).get('fill', False))
         obs.check(gotf == want, 'fill-property-wrong', f"{e['cls']} ({e['shape']} line): fill={e['fill']} gives visual fill={dict(reg.visual).get('fill')!r}", 'fill',
                   text=case.get('_text'))
+    # font="family size weight slant": missing items take DS9's defaults (10, normal, roman); 'roman' is the upright style
+    if e.get('font'):
+        items = e['font'].strip('"\'{}').split()
+        want = {'fontname': items[0].lower(), 'fontsize': int(items[1]) if len(items) > 1 else 10,
+                'fontweight': items[2].lower() if len(items) > 2 else 'normal',
+                'fontstyle': {'roman': 'normal'}.get(items[3].lower(), items[3].lower()) if len(items) > 3 else 'normal'}
+        vis = dict(reg.visual)
+        gotf = {k: (str(vis.get(k)).lower() if k != 'fontsize' else vis.get(k)) for k in want}
+        okf = all(str(gotf[k]) == str(want[k]) for k in want)
+        obs.check(okf, 'font-property-wrong', f"{e['cls']}: font={e['font']} gives {gotf}, the format defines {want}", 'font', text=case.get('_text'))
     # tags
     gtags = meta.get('tag', [])
     if e['tags'] or gtags:
